@@ -604,6 +604,12 @@ pub fn gen_cfg_kind(rng: &mut Rng, p: &GenProfile, kind: Kind) -> Cfg {
         {
             c.oversampling = 2;
         }
+        if rng.chance(0.06) && c.ratio * c.max_rel > 2.5 {
+            // fewer intermediate points than output frames per input frame: consecutive output frames share
+            // their nearest points (a structural corner of the interpolation loops)
+            let top = (c.ratio * c.max_rel).min(64.0);
+            c.oversampling = (rng.uf(0.3, 1.0) * top).floor().max(2.0) as usize;
+        }
         // table size bound (memory / construction time)
         while c.flen() * c.oversampling > 300_000 {
             c.oversampling = (c.oversampling / 2).max(2);
